@@ -207,7 +207,7 @@ Proof.
   apply andb_true_iff in Hv'. destruct Hv' as [Hn Hv']. apply andb_true_iff in Hn. destruct Hn as [Hn1 Hn2].
   set (n := length ks) in *.
   assert (Hpos : forall j, (j < n)%nat -> nth j (positions so Rows ks) PInf = Fin (Z.of_nat j)).
-  { intros j Hj. cbn [positions]. apply nth_map_seq. exact Hj. }
+  { intros j Hj. cbn [positions]. exact (nth_map_seq (fun i => Fin (Z.of_nat i)) _ j PInf Hj). }
   assert (Hlen : length (positions so Rows ks) = n) by apply positions_length.
   unfold rows_range, zlen. fold n.
   (* start *)
@@ -253,4 +253,456 @@ Proof.
   exists s, e. split; [exact Hr|]. rewrite <- Hu in Hd. split.
   - pose proof (delimits_le _ _ _ _ _ Hv Hd). destruct Hd as (_ & He & _). rewrite positions_length in He. lia.
   - apply delimits_decl; assumption.
+Qed.
+
+(* ================================================================== RANGE *)
+Lemma is_lt_cmp so a b : is_lt (cmp_key so a b) = ext_lt (ord so a) (ord so b).
+Proof.
+  unfold ext_lt, cmp_key, ord. destruct a as [x|], b as [y|]; destruct (so_nf so), (so_desc so); cbn; try reflexivity.
+  all: match goal with |- context [?u ?= ?v] => destruct (Z.compare_spec u v) end; cbn;
+       match goal with |- context [?u <=? ?v] => destruct (Z.leb_spec u v) end; try reflexivity; lia.
+Qed.
+
+Lemma is_le_cmp so a b : is_le (cmp_key so a b) = ext_le (ord so a) (ord so b).
+Proof.
+  unfold cmp_key, ord. destruct a as [x|], b as [y|]; destruct (so_nf so), (so_desc so); cbn; try reflexivity.
+  all: match goal with |- context [?u ?= ?v] => destruct (Z.compare_spec u v) end; cbn;
+       match goal with |- context [?u <=? ?v] => destruct (Z.leb_spec u v) end; try reflexivity; lia.
+Qed.
+
+Lemma search_spec p ks fuel : forall low,
+  (low <= search p ks low fuel <= low + fuel)%nat /\
+  (forall j, (low <= j < search p ks low fuel)%nat -> p (nth j ks None) = true) /\
+  ((search p ks low fuel < low + fuel)%nat -> p (nth (search p ks low fuel) ks None) = false).
+Proof.
+  induction fuel as [|fuel IH]; intros low; cbn [search].
+  - split; [lia|]. split; intros; lia.
+  - destruct (p (nth low ks None)) eqn:E.
+    + destruct (IH (S low)) as (A & B & C). split; [lia|]. split.
+      * intros j Hj. destruct (Nat.eq_dec j low) as [->|]; [exact E|apply B; lia].
+      * intros H. apply C. lia.
+    + split; [lia|]. split; [intros; lia|intros; exact E].
+Qed.
+
+(* a linear search resumed from [start] finds the boundary of a downward closed predicate, provided the
+   predicate holds on every row before [start] *)
+Lemma search_sorted (pr : nat -> bool) (p : key -> bool) ks start len :
+  (forall j, (j < len)%nat -> p (nth j ks None) = pr j) ->
+  (forall a b, (a <= b < len)%nat -> pr b = true -> pr a = true) ->
+  (start <= len)%nat -> (forall j, (j < start)%nat -> pr j = true) ->
+  (search_in_slice p ks start len <= len)%nat /\
+  forall j, (j < len)%nat -> ((j < search_in_slice p ks start len)%nat <-> pr j = true).
+Proof.
+  intros Hp Hdown Hs Hbefore. unfold search_in_slice.
+  destruct (search_spec p ks (len - start) start) as (A & B & C).
+  set (r := search p ks start (len - start)) in *.
+  split; [lia|]. intros j Hj. split.
+  - intros Hjr. destruct (Nat.lt_ge_cases j start) as [Hlt|Hge]; [apply Hbefore; exact Hlt|].
+    rewrite <- Hp by exact Hj. apply B. lia.
+  - intros Hpj. destruct (Nat.lt_ge_cases j r) as [|Hge]; [assumption|exfalso].
+    assert (Hr : (r < start + (len - start))%nat) by lia.
+    apply C in Hr. rewrite Hp in Hr by lia.
+    rewrite (Hdown r j) in Hr; [discriminate|lia|exact Hpj].
+Qed.
+
+Definition kpos (so : sortopt) (ks : list key) (j : nat) : ext := ord so (nth j ks None).
+
+Lemma pos_range so ks j : (j < length ks)%nat -> nth j (positions so Range ks) PInf = kpos so ks j.
+Proof.
+  intros H. cbn [positions]. unfold kpos.
+  rewrite (nth_indep _ PInf (ord so None)) by (rewrite map_length; exact H). apply map_nth.
+Qed.
+
+Definition sorted_k (so : sortopt) (ks : list key) : Prop :=
+  forall a b, (a <= b < length ks)%nat -> ext_le (kpos so ks a) (kpos so ks b) = true.
+
+Lemma sorted_keys_sound so ks : sorted_keys so ks = true -> sorted_k so ks.
+Proof.
+  intros H a b Hab. apply sortedb_ext_sound in H.
+  specialize (H a b). rewrite map_length in H. specialize (H Hab).
+  change (map (ord so) ks) with (positions so Range ks) in H. rewrite !pos_range in H by lia. exact H.
+Qed.
+
+Definition side_pred (side : bool) (p t : ext) : bool := if side then ext_lt p t else ext_le p t.
+
+Lemma side_pred_down side a b t : ext_le a b = true -> side_pred side b t = true -> side_pred side a t = true.
+Proof.
+  destruct side; cbn [side_pred]; intros H1 H2.
+  - eapply ext_le_lt_trans; eassumption.
+  - eapply ext_le_trans; eassumption.
+Qed.
+
+(* the search of calculate_index_of_row for a target key whose position is t *)
+Lemma range_go_spec so side ks start (target : key) t :
+  sorted_k so ks -> ord so target = t ->
+  (start <= length ks)%nat -> (forall j, (j < start)%nat -> side_pred side (kpos so ks j) t = true) ->
+  let r := search_in_slice (fun k => if side then is_lt (cmp_key so k target) else is_le (cmp_key so k target))
+                           ks start (length ks) in
+  (r <= length ks)%nat /\ forall j, (j < length ks)%nat -> ((j < r)%nat <-> side_pred side (kpos so ks j) t = true).
+Proof.
+  intros Hsrt Ht Hs Hb. cbv zeta.
+  apply (search_sorted (fun j => side_pred side (kpos so ks j) t)).
+  - intros j Hj. unfold kpos, side_pred. subst t. destruct side; [apply is_lt_cmp|apply is_le_cmp].
+  - intros a b Hab Hpb. eapply side_pred_down; [apply Hsrt; exact Hab|exact Hpb].
+  - exact Hs.
+  - exact Hb.
+Qed.
+
+Definition delta_fits (so : sortopt) (search_side : bool) (delta : option Z) (k : key) : Prop :=
+  match delta, k with
+  | Some d, Some v => i64_min <= (if Bool.eqb search_side (so_desc so) then v + d else v - d) <= i64_max
+  | _, _ => True
+  end.
+
+Definition delta_target (search_side : bool) (delta : option Z) (p : ext) : ext :=
+  match delta with None => p | Some d => shift p (if search_side then - d else d) end.
+
+Lemma range_index_spec so (side search_side : bool) ks (ls le idx : nat) delta :
+  sorted_k so ks -> (idx < length ks)%nat ->
+  delta_fits so search_side delta (nth idx ks None) ->
+  let t := delta_target search_side delta (kpos so ks idx) in
+  let start := if side then ls else le in
+  (start <= length ks)%nat -> (forall j, (j < start)%nat -> side_pred side (kpos so ks j) t = true) ->
+  let r := range_index so side search_side ks ls le idx delta (length ks) in
+  (r <= length ks)%nat /\ forall j, (j < length ks)%nat -> ((j < r)%nat <-> side_pred side (kpos so ks j) t = true).
+Proof.
+  intros Hsrt Hi Hfit t start Hs Hb. unfold range_index. fold start.
+  unfold t, delta_target, kpos in *. unfold delta_fits in Hfit.
+  destruct delta as [d|].
+  - destruct (nth idx ks None) as [v|] eqn:Ek.
+    + destruct (Z.leb_spec i64_min (if Bool.eqb search_side (so_desc so) then v + d else v - d)); [|lia].
+      destruct (Z.leb_spec (if Bool.eqb search_side (so_desc so) then v + d else v - d) i64_max); [|lia].
+      cbn [andb]. apply range_go_spec; try assumption.
+      unfold ord, shift. destruct search_side, (so_desc so); cbn [Bool.eqb]; f_equal; lia.
+    + apply range_go_spec; try assumption.
+      unfold ord, shift. destruct (so_nf so); reflexivity.
+  - apply range_go_spec; try assumption. reflexivity.
+Qed.
+
+Definition range_fits (so : sortopt) (b : bound) (k : key) : Prop :=
+  match b with
+  | Prec d => delta_fits so true (Some d) k
+  | Foll d => delta_fits so false (Some d) k
+  | _ => True
+  end.
+
+Lemma ext_lt_false_le a b : ext_lt a b = true <-> ext_le b a <> true.
+Proof. unfold ext_lt. destruct (ext_le b a); cbn; split; intros; try discriminate; try reflexivity; congruence. Qed.
+
+(* one call of WindowFrameStateRange::calculate_range: correct for every resume point that lies before the frame *)
+Theorem range_step so f ks (ls le idx : nat) :
+  funits f = Range -> frame_valid f = true -> sorted_keys so ks = true -> (idx < length ks)%nat ->
+  range_fits so (fstart f) (nth idx ks None) -> range_fits so (fend f) (nth idx ks None) ->
+  (ls <= length ks)%nat -> (le <= length ks)%nat ->
+  (forall j, (j < ls)%nat -> ext_lt (kpos so ks j) (lo_of (fstart f) (kpos so ks idx)) = true) ->
+  (forall j, (j < le)%nat -> ext_le (kpos so ks j) (hi_of (fend f) (kpos so ks idx)) = true) ->
+  exists s e, range_range so f ks ls le (length ks) idx = Some (s, e) /\
+              delimits f (positions so Range ks) idx s e.
+Proof.
+  intros Hu Hv Hsrt Hi Hf1 Hf2 Hls Hle Hrs Hre.
+  apply sorted_keys_sound in Hsrt.
+  assert (Hv' := Hv). unfold frame_valid in Hv'.
+  apply andb_true_iff in Hv'. destruct Hv' as [_ Hv'].
+  (* start *)
+  assert (Hs : exists s, match fstart f with
+             | UnbPrec => Some O
+             | Prec n => Some (range_index so true true ks ls le idx (Some n) (length ks))
+             | Cur => Some (range_index so true true ks ls le idx None (length ks))
+             | Foll n => Some (range_index so true false ks ls le idx (Some n) (length ks))
+             | UnbFoll => None end = Some s /\ (s <= length ks)%nat /\
+             forall j, (j < length ks)%nat ->
+               ((s <= j)%nat <-> ext_le (lo_of (fstart f) (kpos so ks idx)) (kpos so ks j) = true)).
+  { assert (G : forall side_s dl, delta_fits so side_s dl (nth idx ks None) ->
+               lo_of (fstart f) (kpos so ks idx) = delta_target side_s dl (kpos so ks idx) ->
+               let r := range_index so true side_s ks ls le idx dl (length ks) in
+               (r <= length ks)%nat /\ forall j, (j < length ks)%nat ->
+                 ((r <= j)%nat <-> ext_le (lo_of (fstart f) (kpos so ks idx)) (kpos so ks j) = true)).
+    { intros side_s dl Hfit Heq.
+      destruct (range_index_spec so true side_s ks ls le idx dl Hsrt Hi Hfit Hls) as (A & B).
+      - intros j Hj. cbn [side_pred]. rewrite <- Heq. apply Hrs; exact Hj.
+      - cbv zeta. split; [exact A|]. intros j Hj. specialize (B j Hj). cbn [side_pred] in B.
+        rewrite <- Heq in B. rewrite ext_lt_false_le in B.
+        set (r := range_index so true side_s ks ls le idx dl (length ks)) in *.
+        split.
+        + intros Hrj. destruct (ext_le (lo_of (fstart f) (kpos so ks idx)) (kpos so ks j)) eqn:E; [reflexivity|].
+          exfalso. assert (j < r)%nat by (apply B; discriminate). lia.
+        + intros E. destruct (Nat.le_gt_cases r j) as [|Hlt]; [assumption|].
+          apply B in Hlt. congruence. }
+    destruct (fstart f) as [|a| |a|] eqn:Es; cbn [range_fits] in Hf1.
+    - exists O. split; [reflexivity|]. split; [lia|]. intros; cbn [lo_of ext_le]. split; intros; [reflexivity|lia].
+    - eexists. split; [reflexivity|]. apply (G true (Some a)); [exact Hf1|reflexivity].
+    - eexists. split; [reflexivity|]. apply (G true None); [exact I|reflexivity].
+    - eexists. split; [reflexivity|]. apply (G false (Some a)); [exact Hf1|reflexivity].
+    - discriminate. }
+  assert (He : exists e, match fend f with
+             | UnbPrec => None
+             | Prec n => Some (range_index so false true ks ls le idx (Some n) (length ks))
+             | Cur => Some (range_index so false false ks ls le idx None (length ks))
+             | Foll n => Some (range_index so false false ks ls le idx (Some n) (length ks))
+             | UnbFoll => Some (length ks) end = Some e /\ (e <= length ks)%nat /\
+             forall j, (j < length ks)%nat ->
+               ((j < e)%nat <-> ext_le (kpos so ks j) (hi_of (fend f) (kpos so ks idx)) = true)).
+  { assert (G : forall side_s dl, delta_fits so side_s dl (nth idx ks None) ->
+               hi_of (fend f) (kpos so ks idx) = delta_target side_s dl (kpos so ks idx) ->
+               let r := range_index so false side_s ks ls le idx dl (length ks) in
+               (r <= length ks)%nat /\ forall j, (j < length ks)%nat ->
+                 ((j < r)%nat <-> ext_le (kpos so ks j) (hi_of (fend f) (kpos so ks idx)) = true)).
+    { intros side_s dl Hfit Heq.
+      destruct (range_index_spec so false side_s ks ls le idx dl Hsrt Hi Hfit Hle) as (A & B).
+      - intros j Hj. cbn [side_pred]. rewrite <- Heq. apply Hre; exact Hj.
+      - cbv zeta. split; [exact A|]. intros j Hj. specialize (B j Hj). cbn [side_pred] in B.
+        rewrite <- Heq in B. exact B. }
+    unfold hi_of in *. destruct (fend f) as [|b| |b|] eqn:Ee; cbn [range_fits] in Hf2.
+    - destruct (fstart f); discriminate.
+    - eexists. split; [reflexivity|]. apply (G true (Some b)); [exact Hf2|reflexivity].
+    - eexists. split; [reflexivity|]. apply (G false None); [exact I|reflexivity].
+    - eexists. split; [reflexivity|]. apply (G false (Some b)); [exact Hf2|reflexivity].
+    - exists (length ks). split; [reflexivity|]. split; [lia|]. intros j Hj. cbn [lo_of].
+      split; intros; [|exact Hj]. destruct (kpos so ks j); reflexivity. }
+  destruct Hs as (s & Hs1 & Hs2 & Hs3). destruct He as (e & He1 & He2 & He3).
+  exists s, e. unfold range_range. rewrite Hs1, He1. split; [reflexivity|].
+  unfold delimits. rewrite positions_length. split; [exact Hs2|]. split; [exact He2|].
+  intros j Hj. rewrite !pos_range by assumption. split; [apply Hs3|apply He3]; exact Hj.
+Qed.
+
+(* the frame of an earlier row is a valid point to resume the search from *)
+Lemma delimits_resume f ps i' i s e :
+  sorted_pos ps -> (i' <= i < length ps)%nat -> delimits f ps i' s e ->
+  (forall j, (j < s)%nat -> ext_lt (nth j ps PInf) (lo_of (fstart f) (nth i ps PInf)) = true) /\
+  (forall j, (j < e)%nat -> ext_le (nth j ps PInf) (hi_of (fend f) (nth i ps PInf)) = true).
+Proof.
+  intros Hsrt Hi (Hs & He & H). pose proof (Hsrt i' i Hi) as Hp. split; intros j Hj.
+  - assert (Hjl : (j < length ps)%nat) by lia. destruct (H j Hjl) as [A _].
+    eapply ext_lt_le_trans; [|apply lo_of_mono; exact Hp].
+    apply ext_lt_false_le. intros E. apply A in E. lia.
+  - assert (Hjl : (j < length ps)%nat) by lia. destruct (H j Hjl) as [_ B].
+    eapply ext_le_trans; [apply B; exact Hj|]. apply lo_of_mono; exact Hp.
+Qed.
+
+Definition all_fit (so : sortopt) (f : frame) (ks : list key) : Prop :=
+  forall i, (i < length ks)%nat -> range_fits so (fstart f) (nth i ks None) /\ range_fits so (fend f) (nth i ks None).
+
+Lemma sorted_k_pos so ks : sorted_k so ks -> sorted_pos (positions so Range ks).
+Proof.
+  intros H a b Hab. rewrite positions_length in Hab. rewrite !pos_range by lia. apply H; exact Hab.
+Qed.
+
+Lemma range_run_correct so f ks :
+  funits f = Range -> frame_valid f = true -> sorted_keys so ks = true -> all_fit so f ks ->
+  forall fuel i0 ls le,
+    (i0 + fuel = length ks)%nat -> (ls <= length ks)%nat -> (le <= length ks)%nat ->
+    (forall i, (i0 <= i < length ks)%nat ->
+       (forall j, (j < ls)%nat -> ext_lt (kpos so ks j) (lo_of (fstart f) (kpos so ks i)) = true) /\
+       (forall j, (j < le)%nat -> ext_le (kpos so ks j) (hi_of (fend f) (kpos so ks i)) = true)) ->
+    forall i, (i0 <= i < length ks)%nat ->
+      exists s e, nth (i - i0) (range_run so f ks ls le i0 fuel) None = Some (s, e) /\
+                  delimits f (positions so Range ks) i s e.
+Proof.
+  intros Hu Hv Hsrt Hfit. induction fuel as [|fuel IH]; intros i0 ls le Hlen Hls Hle Hres i Hi; [lia|].
+  cbn [range_run].
+  assert (Hi0 : (i0 < length ks)%nat) by lia.
+  destruct (Hfit i0 Hi0) as [Hf1 Hf2].
+  destruct (Hres i0 (conj (le_n i0) Hi0)) as [Hr1 Hr2].
+  destruct (range_step so f ks ls le i0 Hu Hv Hsrt Hi0 Hf1 Hf2 Hls Hle Hr1 Hr2) as (s & e & Hrr & Hd).
+  rewrite Hrr.
+  destruct (Nat.eq_dec i i0) as [->|Hne].
+  - rewrite Nat.sub_diag. cbn [nth]. exists s, e. split; [reflexivity|exact Hd].
+  - replace (i - i0)%nat with (S (i - S i0)) by lia. cbn [nth].
+    apply IH; try lia.
+    + destruct Hd as (A & _). rewrite positions_length in A. exact A.
+    + destruct Hd as (_ & A & _). rewrite positions_length in A. exact A.
+    + intros i1 Hi1.
+      pose proof (sorted_k_pos so ks (sorted_keys_sound so ks Hsrt)) as Hsp.
+      assert (Hii : (i0 <= i1 < length (positions so Range ks))%nat) by (rewrite positions_length; lia).
+      destruct (delimits_resume f _ i0 i1 s e Hsp Hii Hd) as [R1 R2].
+      pose proof Hd as (A1 & A2 & _). rewrite positions_length in A1, A2.
+      split; intros j Hj.
+      * specialize (R1 j Hj). rewrite !pos_range in R1 by lia. exact R1.
+      * specialize (R2 j Hj). rewrite !pos_range in R2 by lia. exact R2.
+Qed.
+
+Theorem range_range_eq_def_lemma so f ks i :
+  funits f = Range -> frame_valid f = true -> sorted_keys so ks = true -> all_fit so f ks ->
+  (i < length ks)%nat ->
+  exists s e, nth i (range_run so f ks 0 0 0 (length ks)) None = Some (s, e) /\
+              (s <= e <= length ks)%nat /\ decl_frame so f ks i = seq s (e - s).
+Proof.
+  intros Hu Hv Hsrt Hfit Hi.
+  destruct (range_run_correct so f ks Hu Hv Hsrt Hfit (length ks) 0 0 0) with (i := i) as (s & e & Hn & Hd); try lia.
+  - intros i1 Hi1. split; intros; lia.
+  - rewrite Nat.sub_0_r in Hn. exists s, e. split; [exact Hn|]. rewrite <- Hu in Hd. split.
+    + pose proof (delimits_le _ _ _ _ _ Hv Hd). destruct Hd as (_ & He & _). rewrite positions_length in He. lia.
+    + apply delimits_decl; assumption.
+Qed.
+
+(* frames move forward (all three units; positions sorted) *)
+Theorem frame_monotone_lemma so f ks i i' s e s' e' :
+  sorted_pos (positions so (funits f) ks) -> (i <= i' < length ks)%nat ->
+  delimits f (positions so (funits f) ks) i s e -> delimits f (positions so (funits f) ks) i' s' e' ->
+  (s <= s')%nat /\ (e <= e')%nat.
+Proof.
+  intros Hs Hi. apply delimits_monotone; [exact Hs|rewrite positions_length; exact Hi].
+Qed.
+
+Lemma rows_positions_sorted so ks : sorted_pos (positions so Rows ks).
+Proof.
+  intros a b Hab. rewrite positions_length in Hab. cbn [positions].
+  rewrite (nth_map_seq (fun i => Fin (Z.of_nat i)) _ a PInf) by lia.
+  rewrite (nth_map_seq (fun i => Fin (Z.of_nat i)) _ b PInf) by lia.
+  cbn. apply Z.leb_le. lia.
+Qed.
+
+Lemma gnums_from_sorted prev g ks :
+  forall a b, (a <= b < length ks)%nat ->
+    g <= nth a (gnums_from prev g ks) 0 <= nth b (gnums_from prev g ks) 0.
+Proof.
+  revert prev g. induction ks as [|k r IH]; intros prev g a b Hab; cbn [length] in Hab; [lia|].
+  cbn [gnums_from]. set (g' := if key_eqb k prev then g else g + 1).
+  assert (Hg : g <= g') by (unfold g'; destruct (key_eqb k prev); lia).
+  destruct a as [|a], b as [|b]; cbn [nth]; try lia.
+  - destruct (IH k g' 0%nat b) as [A B]; [lia|]. lia.
+  - destruct (IH k g' a b) as [A B]; [lia|]. lia.
+Qed.
+
+Lemma groups_positions_sorted so ks : sorted_pos (positions so Groups ks).
+Proof.
+  intros a b Hab. rewrite positions_length in Hab. cbn [positions].
+  rewrite (nth_indep _ PInf (Fin 0)) by (rewrite map_length, gnums_length; lia).
+  rewrite (nth_indep (map Fin (gnums ks)) PInf (Fin 0)) by (rewrite map_length, gnums_length; lia).
+  rewrite !map_nth. cbn [ext_le]. apply Z.leb_le.
+  destruct ks as [|k r]; cbn [length] in Hab; [lia|]. cbn [gnums].
+  destruct a as [|a], b as [|b]; cbn [nth]; try lia.
+  - destruct (gnums_from_sorted k 0 r 0%nat b); lia.
+  - destruct (gnums_from_sorted k 0 r a b); lia.
+Qed.
+
+Theorem positions_sorted so u ks : (u = Range -> sorted_keys so ks = true) -> sorted_pos (positions so u ks).
+Proof.
+  destruct u; intros H.
+  - apply rows_positions_sorted.
+  - apply sorted_k_pos, sorted_keys_sound, H. reflexivity.
+  - apply groups_positions_sorted.
+Qed.
+
+(* ================================================================== sliding evaluation *)
+Lemma firstn_add {A} (n m : nat) (l : list A) : firstn (n + m) l = firstn n l ++ firstn m (skipn n l).
+Proof.
+  revert l. induction n as [|n IH]; intros l; [reflexivity|].
+  destruct l as [|x l]; cbn [plus firstn skipn app]; [rewrite firstn_nil; reflexivity|]. rewrite IH. reflexivity.
+Qed.
+
+Lemma skipn_add {A} (a b : nat) (l : list A) : skipn (a + b) l = skipn b (skipn a l).
+Proof.
+  revert l. induction a as [|a IH]; intros l; [reflexivity|].
+  destruct l as [|x l]; cbn [plus skipn]; [rewrite skipn_nil; reflexivity|]. apply IH.
+Qed.
+
+Lemma slice_split {A} (l : list A) (a b c : nat) : (a <= b <= c)%nat -> slice l a c = slice l a b ++ slice l b c.
+Proof.
+  intros H. unfold slice. replace (c - a)%nat with ((b - a) + (c - b))%nat by lia.
+  rewrite firstn_add. f_equal. f_equal. rewrite <- skipn_add. f_equal. lia.
+Qed.
+
+Lemma slice_empty {A} (l : list A) a : slice l a a = [].
+Proof. unfold slice. rewrite Nat.sub_diag. reflexivity. Qed.
+
+Lemma zsum_app a b : zsum (a ++ b) = zsum a + zsum b.
+Proof. unfold zsum. induction a as [|x a IH]; cbn [app fold_right]; [lia|]. rewrite IH. lia. Qed.
+
+Lemma nonnull_app a b : nonnull (a ++ b) = nonnull a ++ nonnull b.
+Proof. apply flat_map_app. Qed.
+
+Definition vsum (xs : list (option Z)) (a b : nat) : Z := zsum (nonnull (slice xs a b)).
+Definition vcnt (xs : list (option Z)) (a b : nat) : Z := zlen (nonnull (slice xs a b)).
+
+Lemma vsum_split xs a b c : (a <= b <= c)%nat -> vsum xs a c = vsum xs a b + vsum xs b c.
+Proof. intros H. unfold vsum. rewrite (slice_split xs a b c H), nonnull_app, zsum_app. reflexivity. Qed.
+
+Lemma vcnt_split xs a b c : (a <= b <= c)%nat -> vcnt xs a c = vcnt xs a b + vcnt xs b c.
+Proof.
+  intros H. unfold vcnt, zlen. rewrite (slice_split xs a b c H), nonnull_app, app_length. lia.
+Qed.
+
+Lemma vsum_empty xs a : vsum xs a a = 0.
+Proof. unfold vsum. rewrite slice_empty. reflexivity. Qed.
+Lemma vcnt_empty xs a : vcnt xs a a = 0.
+Proof. unfold vcnt. rewrite slice_empty. reflexivity. Qed.
+
+Lemma acc_of_eq xs s e : acc_of xs (s, e) = {| a_sum := vsum xs s e; a_cnt := vcnt xs s e |}.
+Proof. unfold acc_of, acc_update, acc0, vsum, vcnt. cbn [fst snd a_sum a_cnt]. f_equal; lia. Qed.
+
+Lemma upd_if xs (A : acc) a b : (a <= b)%nat ->
+  (if (0 <? b - a)%nat then acc_update A (slice xs a b) else A) =
+  {| a_sum := a_sum A + vsum xs a b; a_cnt := a_cnt A + vcnt xs a b |}.
+Proof.
+  intros H. destruct (Nat.ltb_spec 0 (b - a)) as [|Hz]; [reflexivity|].
+  replace b with a by lia. rewrite vsum_empty, vcnt_empty. destruct A; cbn. f_equal; lia.
+Qed.
+
+Lemma retr_if xs (A : acc) a b : (a <= b)%nat ->
+  (if (0 <? b - a)%nat then acc_retract A (slice xs a b) else A) =
+  {| a_sum := a_sum A - vsum xs a b; a_cnt := a_cnt A - vcnt xs a b |}.
+Proof.
+  intros H. destruct (Nat.ltb_spec 0 (b - a)) as [|Hz]; [reflexivity|].
+  replace b with a by lia. rewrite vsum_empty, vcnt_empty. destruct A; cbn. f_equal; lia.
+Qed.
+
+(* one step of the sliding evaluation: the accumulator of the last frame becomes the accumulator of the new one *)
+Lemma slide_step xs s e s' e' :
+  (s <= e)%nat -> (s' <= e')%nat -> (s <= s')%nat -> (e <= e')%nat ->
+  slide xs (acc_of xs (s, e)) (s, e) (s', e') = acc_of xs (s', e').
+Proof.
+  intros H1 H2 H3 H4. unfold slide. cbn [fst snd]. rewrite !acc_of_eq.
+  destruct (Nat.eqb_spec s' e') as [->|Hne].
+  - rewrite retr_if by exact H1. cbn [a_sum a_cnt]. rewrite vsum_empty, vcnt_empty. f_equal; lia.
+  - rewrite upd_if by exact H4. rewrite retr_if by exact H3. cbn [a_sum a_cnt].
+    pose proof (vsum_split xs s e e' (conj H1 H4)). pose proof (vcnt_split xs s e e' (conj H1 H4)).
+    pose proof (vsum_split xs s s' e' (conj H3 H2)). pose proof (vcnt_split xs s s' e' (conj H3 H2)).
+    f_equal; lia.
+Qed.
+
+(* frames that move forward *)
+Fixpoint forward_frames (last : nat * nat) (frames : list (nat * nat)) : Prop :=
+  match frames with
+  | [] => True
+  | c :: r => ((fst last <= fst c)%nat /\ (snd last <= snd c)%nat /\ (fst c <= snd c)%nat) /\ forward_frames c r
+  end.
+
+Theorem sliding_eq_recompute_lemma xs : forall frames last,
+  (fst last <= snd last)%nat -> forward_frames last frames ->
+  slide_run xs (acc_of xs last) last frames = map (acc_of xs) frames.
+Proof.
+  induction frames as [|c r IH]; intros last Hl Hf; [reflexivity|].
+  destruct Hf as [(A & B & C) Hr]. destruct last as [s e], c as [s' e']. cbn [fst snd] in *.
+  cbn [slide_run map]. rewrite slide_step by assumption. f_equal. apply IH; assumption.
+Qed.
+
+(* the values read from the accumulator are the SQL aggregates over the frame's rows *)
+Lemma skipn_nth_cons {A} (l : list A) (s : nat) d : (s < length l)%nat -> skipn s l = nth s l d :: skipn (S s) l.
+Proof.
+  revert s. induction l as [|x l IH]; intros s H; cbn [length] in H; [lia|].
+  destruct s as [|s]; [reflexivity|]. cbn [skipn nth]. apply IH. lia.
+Qed.
+
+Lemma frame_values_slice {A} (l : list A) d : forall n s, (s + n <= length l)%nat ->
+  map (fun j => nth j l d) (seq s n) = slice l s (s + n).
+Proof.
+  unfold slice. induction n as [|n IH]; intros s H.
+  - rewrite Nat.add_0_r, Nat.sub_diag. reflexivity.
+  - cbn [seq map]. replace (s + S n - s)%nat with (S n) by lia.
+    rewrite (skipn_nth_cons l s d) by lia. cbn [firstn]. f_equal.
+    rewrite IH by lia. f_equal. lia.
+Qed.
+
+Lemma nonnull_nil_len l : zlen (nonnull l) = 0 <-> nonnull l = [].
+Proof. unfold zlen. destruct (nonnull l); cbn [length]; split; intros; try reflexivity; try discriminate; lia. Qed.
+
+Theorem acc_values xs s e :
+  acc_sum (acc_of xs (s, e)) = eval_over FSum (slice xs s e) /\
+  acc_count (acc_of xs (s, e)) = eval_over FCount (slice xs s e).
+Proof.
+  rewrite acc_of_eq. unfold acc_sum, acc_count, eval_over, vsum, vcnt. cbn [a_sum a_cnt]. split; [|reflexivity].
+  destruct (Z.eqb_spec (zlen (nonnull (slice xs s e))) 0) as [E|E].
+  - apply nonnull_nil_len in E. rewrite E. reflexivity.
+  - destruct (nonnull (slice xs s e)) eqn:En; [exfalso; apply E; reflexivity|reflexivity].
 Qed.
